@@ -158,13 +158,11 @@ class FuncFacts:
         return {(render(c), t) for c, t in cs}
 
 
-_ff_cache = {}
-
-
 def ff(func):
-    r = _ff_cache.get(func.key)
-    if r is None:
-        r = _ff_cache[func.key] = FuncFacts(func)
+    # cached on the Func object itself: a cache keyed by name would hand the facts of another Facts instance (other node objects) to `is` comparisons
+    r = getattr(func, '_ff', None)
+    if r is None or r.func is not func:
+        r = func._ff = FuncFacts(func)
     return r
 
 
